@@ -658,6 +658,17 @@ def check_result(s, L, rho_ex, r, method, solver, loose=0.0):
     return bad
 
 
+def loose_tol(kw, solver, fmt):
+    """extra tolerance [NUM]: power_eps shifts the generator; solver='lstsq'
+    on Dia data is dispatched to scipy's iterative lsqr (default atol=btol=1e-6)"""
+    t = 0.0
+    if "power_eps" in kw:
+        t = 1e-6
+    if solver == "lstsq" and fmt == "dia":
+        t = max(t, 2e-5)
+    return t
+
+
 def phase_symptom(M, rho_ex):
     """is M = c * rho_ex with complex c, Re c = 1 ?"""
     c = np.vdot(rho_ex, M) / np.vdot(rho_ex, rho_ex)
@@ -733,7 +744,7 @@ def oracle_system(ctx, s, cfgs, rng, stats, fmts):
                           {"system": s, "cfg": [method, solver, kw], "fmt": fmt,
                            "input": as_l, "seed": seed, "error": msg})
             continue
-        bad = check_result(s, L, rho_ex, r, method, solver, 1e-6 if "power_eps" in kw else 0.0)
+        bad = check_result(s, L, rho_ex, r, method, solver, loose_tol(kw, solver, fmt))
         ctx.count_case(("oracle", json.dumps(s, sort_keys=True), method, solver,
                         json.dumps(kw, sort_keys=True), fmt, as_l), nontrivial=True)
         if not bad:
@@ -1346,7 +1357,8 @@ def replay(ctx, payload):
         except Exception as e:
             ctx.violation(site, payload["signature"], "raises %s" % e, d)
             return
-        bad = check_result(s, L, rho_ex, r, cfg[0], cfg[1])
+        bad = check_result(s, L, rho_ex, r, cfg[0], cfg[1],
+                           loose_tol(cfg[2], cfg[1], d.get("fmt", "csr")))
         if bad:
             ctx.violation(site, payload["signature"], "reproduced: %s" % bad, d)
     elif site == "steadystate:power":
